@@ -108,7 +108,7 @@ End Mono.
 Definition field_leaves (e : name * gotag * goval) : list (path * leaf) :=
   let '(n, tg, x) := e in
   match tg with
-  | TagDash | TagBoth _ => match x with VNil => [] | _ => prefix (PFrag (lower_bytes n)) (leaves x) end
+  | TagDash | TagBoth _ => match x with VNil => [] | _ => prefix (PFrag (frag_label n)) (leaves x) end
   | TagKey k => prefix (PKey (lower_bytes k)) (leaves x)
   | TagNone => prefix (PKey (lower_bytes n)) (leaves x)
   end.
